@@ -26,6 +26,28 @@ def payload(tag, n, compressible=False):
 
 _classes = {}
 
+ORACLE_DECODING = [False]
+
+
+def _revive(tag):
+    """Unpickling hook of Unloadable: raises whenever the library decodes the command (on every replica alike);
+    only the oracle's own decoding gets a placeholder."""
+    if ORACLE_DECODING[0]:
+        return ('__unloadable__', tag)
+    raise ValueError('argument of command %d cannot be rebuilt' % tag)
+
+
+class Unloadable(object):
+    """An argument that pickles but cannot be unpickled (an exception class with a two-argument constructor, an
+    object of a class that was renamed, ...): the command raises while its arguments are decoded, before the method
+    body runs."""
+
+    def __init__(self, tag):
+        self.tag = tag
+
+    def __reduce__(self):
+        return (_revive, (self.tag,))
+
 
 def _brief(msg):
     if not isinstance(msg, dict):
@@ -261,6 +283,8 @@ class KVApp(object):
                     node.append(tag, callback=cb)
             elif meth == 'boom':
                 node.boom(tag, callback=cb)
+            elif meth == 'boomarg':
+                node.echo(tag, Unloadable(tag), callback=cb)
             else:
                 return self.submit_other(world, host, args, cb)
         except HarnessError:
@@ -286,7 +310,11 @@ class KVApp(object):
             return ('member', None, _pickle.loads(cmd[1:]), None)
         if t == 3:
             return ('version', None, _pickle.loads(cmd[1:]), None)
-        c = _pickle.loads(cmd[1:])
+        ORACLE_DECODING[0] = True
+        try:
+            c = _pickle.loads(cmd[1:])
+        finally:
+            ORACLE_DECODING[0] = False
         args, kwargs = (), {}
         if not isinstance(c, tuple):
             fid = c
@@ -294,4 +322,8 @@ class KVApp(object):
             fid, args = c
         else:
             fid, args, kwargs = c
-        return ('regular', self.idmap.get(fid, fid), args, kwargs)
+        name = self.idmap.get(fid, fid)
+        if any(isinstance(a, tuple) and len(a) == 2 and a[0] == '__unloadable__' for a in args):
+            # the command raises while the library decodes it: for the reference it is a raising command
+            return ('regular', 'boom', (args[0],), {})
+        return ('regular', name, args, kwargs)
